@@ -35,18 +35,26 @@ def replay(rec: Dict[str, Any]) -> List[Tuple[str, Dict[str, Any], str]]:
             ms = list(path.finditer(doc))
         except BaseException:  # noqa: BLE001
             continue
+        exp_locs = rec["res"][d]
+        if len(ms) != len(exp_locs):
+            continue  # C01's business
         seen = set()
-        for m in ms:
-            key = lockey(core.parts_to_loc(m.parts))
+        for m, eloc in zip(ms, exp_locs):
+            # the location the specification gives this match (not the one the match claims)
+            key = lockey(eloc)
             if key in seen:
                 continue
             seen.add(key)
             node = tbl.by_loc[d].get(key)
             if node is None:
-                continue  # C03's business
+                continue
             disc = ""
             for how in ("pointer-object", "pointer-text"):
-                ptr: Any = m.pointer() if how == "pointer-object" else str(m.pointer())
+                try:
+                    ptr: Any = m.pointer() if how == "pointer-object" else str(m.pointer())
+                except BaseException as e:  # noqa: BLE001
+                    disc = f"{how}:pointer()-raised-{exc_family(e)}"
+                    break
                 if how == "pointer-text" and "\\" in ptr:
                     continue
                 try:
@@ -72,11 +80,15 @@ def replay(rec: Dict[str, Any]) -> List[Tuple[str, Dict[str, Any], str]]:
                 if disc:
                     disc = f"{how}:{disc}"
                     break
+            if disc and disc.count(":") == 0:
+                disc = "pointer:" + disc
             if disc:
                 last = m.parts[-1] if m.parts else ""
                 kind = "root" if not m.parts else ("index" if isinstance(last, int) else ("intlike-name" if str(last).lstrip("+-").isdigit() else "name"))
+                if any(isinstance(p, str) and p.lstrip("-").isdigit() and abs(int(p)) > 2**53 - 1 for p in m.parts):
+                    kind = "member-name-is-an-integer-beyond-the-index-limit"
                 out.append((f"{disc}|last:{kind}", {"query": text, "doc": show(tbl.docs[d]["doc"]), "match_parts": list(m.parts),
-                                                    "pointer": str(m.pointer()), "tagged": rec}, disc))
+                                                    "tagged": rec}, disc))
                 return out
     return out
 
